@@ -52,6 +52,7 @@ class Cfg:
     col_width_range: tuple | None = None  # page col_width drawn from this range (inches)
     group_by_p: int = 3                   # out of 10
     noncontig: float = 0.0                # probability that group_by keys are made non-contiguous
+    subline_return: float = 0.0           # probability that a later subline_by section reuses the value of an earlier, non-adjacent one
     convert_per_column: bool = False      # text_convert given per ORIGINAL column; trigger characters only where it is off
 
 
@@ -353,6 +354,14 @@ def table_section(draw, cfg: Cfg, sec_index=0, multi=False):
         strat = "page_by"
     if subline_by:
         gc = draw(group_columns(n, 1, "@B", cfg, max_run=8))
+        if cfg.subline_return and draw(st.integers(0, 99)) < cfg.subline_return * 100:
+            # A A B A C: the sections of one value are scattered (each run is still a section / page of its own)
+            starts = [i for i in range(n) if i == 0 or gc[0][i] != gc[0][i - 1]]
+            if len(starts) >= 3:
+                k = draw(st.integers(2, len(starts) - 1))
+                end = starts[k + 1] if k + 1 < len(starts) else n
+                for i in range(starts[k], end):
+                    gc[0][i] = gc[0][starts[k - 2]]
         cols[subline_by[0]] = {"name": names[subline_by[0]], "dtype": "str", "values": gc[0]}
         body["subline_by"] = [names[subline_by[0]]]
         strat = "subline+page_by" if page_by else "subline"
